@@ -1,6 +1,6 @@
 """C18 - integrality is never relaxed silently.
 
-Cells: declaration route (scalar, vector, slices, stepped / reversed slices,
+Cells: declaration route (scalar, vector, VectorVariable.from_numpy, slices, stepped / reversed slices,
 matrix, transpose, rows, columns, sub-matrices, diagonal(), diag(),
 diag_matrix(), symmetric) x domain {integer, binary} x model shape {all
 discrete, discrete strict subset, discrete only in a constraint} x solver
@@ -49,11 +49,14 @@ ROUTES = {
     "diag_matrix()": ("M", ["dmat", ["vec", "y"]]),
     "symmetric": ("M", _G),
     "symmetric-row": ("V", ["row", _G, 2]),
+    "from_numpy": ("V", _x),
+    "from_numpy-slice": ("V", ["slice", _x, 1, 4, None]),
+    "diag_matrix()-of-from_numpy": ("M", ["dmat", ["vec", "y"]]),
 }
 SHAPES = ["all-discrete", "mixed", "discrete-only-in-constraint"]
 
 
-def decls_for(domain, odd_bounds=False):
+def decls_for(domain, odd_bounds=False, via=None):
     kw = {"dom": domain}
     if domain == "integer":
         kw.update(lb=0.0, ub=3.0)
@@ -62,8 +65,8 @@ def decls_for(domain, odd_bounds=False):
     return [
         {"k": "var", "name": "t", "lb": 0.0, "ub": 2.0},
         {"k": "var", "name": "k", **kw},
-        {"k": "vec", "name": "x", "n": 5, **kw},
-        {"k": "vec", "name": "y", "n": 2, **kw},
+        {"k": "vec", "name": "x", "n": 5, **kw, **({"via": via} if via else {})},
+        {"k": "vec", "name": "y", "n": 2, **kw, **({"via": via} if via else {})},
         {"k": "mat", "name": "A", "r": 2, "c": 3, **kw},
         {"k": "mat", "name": "G", "r": 3, "c": 3, "sym": True, **kw},
     ]
@@ -92,7 +95,7 @@ def scalar_node(D, name):
 
 
 def make_problem(route, domain, shape, nonlinear, odd):
-    decls = decls_for(domain, odd)
+    decls = decls_for(domain, odd, "from_numpy" if "from_numpy" in route else None)
     D = R.Decls(decls)
     kind, node = ROUTES[route]
     els = list(dict.fromkeys(elements(D, kind, node)))
@@ -142,7 +145,7 @@ def make_problem(route, domain, shape, nonlinear, odd):
 def info(tier):
     return {
         "level": LEVEL,
-        "rule": "declaration route (16) x domain (2) x model shape (3) x method (11) x {linear, nonlinear objective}; per cell: "
+        "rule": "declaration route (19) x domain (2) x model shape (3) x method (11) x {linear, nonlinear objective}; per cell: "
         "strict=True must raise IntegerVariableError with exactly the discrete problem variables and 0 seam calls; "
         "non-strict must warn naming exactly them and equal the twin's continuous relaxation; binary bounds (0,1) and view "
         "domains checked on every element; quick runs a seed-rotated third of the method axis per cell; distinct = canonical "
